@@ -127,6 +127,57 @@ func (m *Model) ReachesRecursion(typ, rel string) bool {
 	return walk(RelKey(typ, rel))
 }
 
+// ReachesExclusion reports whether evaluating typ#rel can involve an exclusion: typ#rel or some
+// relation reachable from it in the relation dependency graph has a difference in its rewrite.
+func (m *Model) ReachesExclusion(typ, rel string) bool {
+	seen := map[string]bool{}
+	var hasDiff func(us *openfgav1.Userset) bool
+	hasDiff = func(us *openfgav1.Userset) bool {
+		switch u := us.GetUserset().(type) {
+		case *openfgav1.Userset_Difference:
+			return true
+		case *openfgav1.Userset_Union:
+			for _, c := range u.Union.GetChild() {
+				if hasDiff(c) {
+					return true
+				}
+			}
+		case *openfgav1.Userset_Intersection:
+			for _, c := range u.Intersection.GetChild() {
+				if hasDiff(c) {
+					return true
+				}
+			}
+		}
+		return false
+	}
+	var walk func(k string) bool
+	walk = func(k string) bool {
+		if seen[k] {
+			return false
+		}
+		seen[k] = true
+		i := strings.Index(k, "#")
+		t, r := k[:i], k[i+1:]
+		us := m.Rewrite(t, r)
+		if us == nil {
+			return false
+		}
+		if hasDiff(us) {
+			return true
+		}
+		var es []depEdge
+		m.deps(t, us, false, &es, r)
+		for _, e := range es {
+			if walk(e.to) {
+				return true
+			}
+		}
+		return false
+	}
+	return walk(RelKey(typ, rel))
+}
+
 // IsTupleset reports whether type#relation is used as the tupleset of some tuple-to-userset rewrite.
 func (m *Model) IsTupleset(typ, rel string) bool { return m.tuplesets[RelKey(typ, rel)] }
 
